@@ -2,6 +2,7 @@ package rg
 
 import (
 	"fmt"
+
 	"go/token"
 	"go/types"
 	"strings"
@@ -135,7 +136,7 @@ type OrderFlow struct {
 	F  *Flow
 }
 
-const maxPathStates = 24
+const maxPathStates = 600
 
 func encState(s Set) string { return strings.Join(s.Sorted(), "\x00") }
 func decState(e string) Set {
@@ -169,7 +170,30 @@ func collapse(states Set) Set {
 	return Set{encState(inter): true}
 }
 
-func (c *C) orderFlow(fn *ssa.Function, reset func(ssa.Instruction) bool, allEdges bool) *OrderFlow {
+// orderFlow: vocab lists the facts worth tracking (exact names, or prefixes ending in '*'); nil = everything.
+func (c *C) orderFlow(fn *ssa.Function, reset func(ssa.Instruction) bool, allEdges bool, vocab ...string) *OrderFlow {
+	keep := func(f string) bool {
+		if len(vocab) == 0 || strings.HasPrefix(f, "PHIV|") || strings.HasPrefix(f, "T|pure:") || strings.HasPrefix(f, "F|pure:") {
+			return true
+		}
+		for _, v := range vocab {
+			if v == f || (strings.HasSuffix(v, "*") && strings.HasPrefix(f, v[:len(v)-1])) {
+				return true
+			}
+		}
+		return false
+	}
+	prune := func(s Set) Set {
+		if len(vocab) == 0 {
+			return s
+		}
+		for f := range s {
+			if !keep(f) {
+				delete(s, f)
+			}
+		}
+		return s
+	}
 	tr1 := func(in ssa.Instruction, s Set) Set {
 		if reset != nil && reset(in) {
 			s = Set{}
@@ -199,7 +223,7 @@ func (c *C) orderFlow(fn *ssa.Function, reset func(ssa.Instruction) bool, allEdg
 		}
 		out := Set{}
 		for e := range states {
-			out[encState(tr1(in, decState(e)))] = true
+			out[encState(prune(tr1(in, decState(e))))] = true
 		}
 		return collapse(out), false
 	}
@@ -232,22 +256,89 @@ func (c *C) orderFlow(fn *ssa.Function, reset func(ssa.Instruction) bool, allEdg
 		}
 		return s
 	}
+	valByName := map[string]ssa.Value{}
+	// resolveBranch interprets a branch on value v (taken with polarity neg) in state n; returns false if infeasible.
+	var resolveBranch func(v ssa.Value, neg bool, n Set, depth int) bool
+	resolveBranch = func(v ssa.Value, neg bool, n Set, depth int) bool {
+		phi, isPhi := v.(*ssa.Phi)
+		if !isPhi || depth > 4 {
+			edge1(v, neg, n)
+			return true
+		}
+		if (!neg && n["PHIV|"+phi.Name()+"|F"]) || (neg && n["PHIV|"+phi.Name()+"|T"]) {
+			return false
+		}
+		feasible := true
+		for f := range n {
+			if strings.HasPrefix(f, "PHIV|"+phi.Name()+"|E|") {
+				if inner := valByName[f[len("PHIV|"+phi.Name()+"|E|"):]]; inner != nil {
+					if !resolveBranch(inner, neg, n, depth+1) {
+						feasible = false
+					}
+				}
+			}
+		}
+		for f := range n {
+			if strings.HasPrefix(f, "PHIV|"+phi.Name()+"|") {
+				delete(n, f)
+			}
+		}
+		return feasible
+	}
+	// boolean phis of constants (short-circuit || and && chains): remember which constant the path selected
+	phiFacts := func(from, to *ssa.BasicBlock, s Set) {
+		for _, in := range to.Instrs {
+			phi, ok := in.(*ssa.Phi)
+			if !ok {
+				break
+			}
+			if bt, isB := phi.Type().Underlying().(*types.Basic); !isB || bt.Kind() != types.Bool {
+				continue
+			}
+			for i, p := range to.Preds {
+				if p != from {
+					continue
+				}
+				delete(s, "PHIV|"+phi.Name()+"|T")
+				delete(s, "PHIV|"+phi.Name()+"|F")
+				for f := range s {
+					if strings.HasPrefix(f, "PHIV|"+phi.Name()+"|E|") {
+						delete(s, f)
+					}
+				}
+				if cst, ok := phi.Edges[i].(*ssa.Const); ok && cst.Value != nil {
+					if cst.Value.ExactString() == "true" {
+						s["PHIV|"+phi.Name()+"|T"] = true
+					} else {
+						s["PHIV|"+phi.Name()+"|F"] = true
+					}
+				} else {
+					// the path selected a computed value: remember which one, it is interpreted when the phi is branched on
+					s["PHIV|"+phi.Name()+"|E|"+phi.Edges[i].Name()] = true
+					valByName[phi.Edges[i].Name()] = phi.Edges[i]
+				}
+			}
+		}
+	}
 	edgeGen := func(from, to *ssa.BasicBlock, states Set) Set {
 		cond, neg, ok := branchCond(from, to)
-		if !ok {
-			return states
-		}
 		out := Set{}
 		for e := range states {
-			n := edge1(cond, neg, decState(e))
+			n := decState(e)
 			infeasible := false
+			if ok {
+				if !resolveBranch(cond, neg, n, 0) {
+					infeasible = true
+				}
+			}
+			phiFacts(from, to, n)
 			for f := range n {
 				if strings.HasPrefix(f, "T|pure:") && n["F|"+f[2:]] {
 					infeasible = true
 				}
 			}
 			if !infeasible {
-				out[encState(n)] = true
+				out[encState(prune(n))] = true
 			}
 		}
 		return collapse(out)
@@ -327,7 +418,16 @@ func (c *C) checkOrder(rule string, obs []ordOb) {
 		fk := fmt.Sprint(fn.String(), ob.AllEdges)
 		of := flows[fk]
 		if of == nil {
-			of = c.orderFlow(fn, nil, ob.AllEdges)
+			var vocab []string
+			for _, o2 := range obs {
+				if o2.Pkg == ob.Pkg && o2.Fn == ob.Fn && o2.AllEdges == ob.AllEdges {
+					vocab = append(vocab, o2.NeedAll...)
+					vocab = append(vocab, o2.NeedAny...)
+					vocab = append(vocab, o2.Unless...)
+					vocab = append(vocab, o2.IfMay...)
+				}
+			}
+			of = c.orderFlow(fn, nil, ob.AllEdges, vocab...)
 			flows[fk] = of
 		}
 		matched := 0
